@@ -122,6 +122,9 @@ enum Fault {
     LinkControl,
     /// a message for a process whose handler has crashed
     CrashedRecipient,
+    /// a control tuple whose first element is not a valid tag: an atom, a float, a binary, a list, a tuple, a
+    /// big integer, a negative or too large integer
+    OddControlHead,
     /// frames whose payload is nested beyond the decoder's limit, each followed by a legal payload nested as
     /// deep as the decoder accepts
     OverDeepPayloads,
@@ -130,7 +133,7 @@ enum Fault {
 
 const FAULTS: &[Fault] = &[
     Fault::Tick, Fault::UndecodableBody, Fault::BadMarker, Fault::ControlNotATuple, Fault::EmptyControlTuple, Fault::UnknownControlKind, Fault::UnknownPid,
-    Fault::UnknownName, Fault::ReplyToUnknownCall, Fault::TruncatedPayload, Fault::LinkControl, Fault::CrashedRecipient, Fault::OverDeepPayloads,
+    Fault::UnknownName, Fault::ReplyToUnknownCall, Fault::TruncatedPayload, Fault::LinkControl, Fault::CrashedRecipient, Fault::OverDeepPayloads, Fault::OddControlHead,
 ];
 
 #[derive(Clone, Copy, Debug, PartialEq, Eq)]
@@ -405,6 +408,21 @@ async fn routing_and_faults(ctx: &Ctx, rng: &mut Rng, epmd: &net::EpmdTable, id:
                         let x = Val::Tuple(vec![Val::int(3), remote.clone(), pidval(&w.panicker), Val::atom("bye")]);
                         let _ = peer.write_frame4(&pt(&x, None)).await;
                     }
+                    Fault::OddControlHead => {
+                        let heads = [
+                            Val::atom("hello"), Val::float(2.0), Val::binary(&[2]), Val::list(vec![Val::int(2)]), Val::Tuple(vec![Val::int(2)]), Val::Nil,
+                            Val::Int(crate::refmodel::val::Int::pow2(70)), Val::int(-1), Val::int(256), Val::int(1 << 40), Val::int(-(1 << 62)),
+                        ];
+                        for h in rng.pick(&[0usize, 1]).clone()..heads.len() {
+                            if h % 2 != (uid % 2) as usize {
+                                continue;
+                            }
+                            let c = Val::Tuple(vec![heads[h].clone(), Val::atom(""), pidval(&w.procs[0])]);
+                            let _ = peer.write_frame4(&pt(&c, Some(&Val::atom("x")))).await;
+                            let c1 = Val::Tuple(vec![heads[h].clone()]);
+                            let _ = peer.write_frame4(&pt(&c1, None)).await;
+                        }
+                    }
                     Fault::OverDeepPayloads => {
                         let legal = max_legal_depth();
                         let c = Val::Tuple(vec![Val::int(2), Val::atom(""), pidval(&w.procs[0])]);
@@ -629,7 +647,7 @@ async fn quiet_period(ctx: &Ctx, epmd: &net::EpmdTable, id: usize, periods: usiz
 }
 
 pub fn run(ctx: &Ctx) {
-    ctx.rule("scenarios = scripted inbound histories over a real connection to a Node with three recording processes and one registered name: sends to pids and names, exit and monitor notifications, replies to outstanding remote calls, and after each fault (tick, undecodable body, wrong marker byte, control term that is not a tuple / empty tuple / unknown kind, unknown pid, unknown name, reply to an unknown call, truncated payload, link control, messages for a process whose handler has crashed, payloads nested beyond the decoder's limit each followed by a legal payload of the deepest accepted nesting) a probe message that must be delivered with the connection still registered; then the peer closes / ends the stream inside a frame / sends an over-long length and the connection must be deregistered within 5 s; plus bursts of 150..2600 frames (around the 1000-slot mailbox) for a process whose handler is gated or slow, each of which must be delivered exactly once; plus quiet periods of 12.5 s (longer than the node's fixed 10 s read timeout) each followed by a tick (so a tick is itself followed by a silence longer than the timeout), then a probe arriving in pieces and an ordinary probe; evaluations = routed frames, probes and terminal checks judged; distinct = distinct (frame kind / fault kind / terminal kind) labels");
+    ctx.rule("scenarios = scripted inbound histories over a real connection to a Node with three recording processes and one registered name: sends to pids and names, exit and monitor notifications, replies to outstanding remote calls, and after each fault (tick, undecodable body, wrong marker byte, control term that is not a tuple / empty tuple / unknown kind / headed by something that is not a tag (atom, float, binary, list, tuple, big, negative or over-large integer), unknown pid, unknown name, reply to an unknown call, truncated payload, link control, messages for a process whose handler has crashed, payloads nested beyond the decoder's limit each followed by a legal payload of the deepest accepted nesting) a probe message that must be delivered with the connection still registered; then the peer closes / ends the stream inside a frame / sends an over-long length and the connection must be deregistered within 5 s; plus bursts of 150..2600 frames (around the 1000-slot mailbox) for a process whose handler is gated or slow, each of which must be delivered exactly once; plus quiet periods of 12.5 s (longer than the node's fixed 10 s read timeout) each followed by a tick (so a tick is itself followed by a silence longer than the timeout), then a probe arriving in pieces and an ordinary probe; evaluations = routed frames, probes and terminal checks judged; distinct = distinct (frame kind / fault kind / terminal kind) labels");
     ctx.assume("verdicts by delivery of the probe, not by timing; the quiet-period scenario runs concurrently with the others");
     let mut rng = Rng::derive(ctx.seed, 19, 1);
     let rt = tokio::runtime::Builder::new_multi_thread().worker_threads(8).enable_all().build().expect("runtime");
